@@ -1381,6 +1381,7 @@ def multibyte_device_scenario(rng, n_words):
         await host.idle(ctx, 4)
         toggle = None
         naks = 0
+        stopped = False
         for _ in range(40 * n_words + 200):
             if rng.random() < 0.3:
                 st["p"] = rng.choice([0.0, 0.1, 0.5, 1.0, 1.0])
@@ -1396,8 +1397,12 @@ def multibyte_device_scenario(rng, n_words):
             else:
                 naks += 1
                 await host.idle(ctx, 3)
-            if st["accepted"] >= n_words and naks >= 3:
+            if st["accepted"] >= n_words and not stopped:
+                stopped = True               # the producer has just gone silent: the drain phase starts here
+                naks = 0
+            if stopped and naks >= 3:
                 break
+        await host.idle(ctx, 12)
         trace.append({"e": "end"})
         sent = [r["bd"] for r in trace if r.get("bv") and r.get("br")]
         return trace, (wire == sent)
